@@ -228,6 +228,10 @@ pub enum TlsConnectionError<E> {
     /// The TLS feature is disabled, but TLS was requested.
     #[error("TLS is not enabled, can't connect to https")]
     TlsDisabled,
+
+    /// The host of the request URI can not be used as a TLS server name.
+    #[error("Invalid TLS server name: {0}")]
+    InvalidServerName(String),
 }
 
 #[derive(Debug, Clone)]
